@@ -15,7 +15,8 @@ EXPLANATION = (
     "start_execution the record fields, the single terminal history event and the single notification are produced in the "
     "right combination and order; (R5) every CFG path of every event handler (8 state handlers, 5 deferred callbacks, "
     "handle_error, handle_terminal_state, the join, the termination gate, notify itself) issues exactly one continuation. "
-    "It does not decide behaviour under reordered or late events (schedule-dependent).")
+    "It does not decide behaviour under reordered or late events (schedule-dependent)."
+    ' Added with the round-6 baseline defects: (C06.R10) both termination gates tolerate a group whose join state was tidied up (a KeyError there leaves an empty join state that the back stop ends a second time); (C07.R9) a fan-out delegate evaluates nothing catchable after it pushed its placeholder Branch record (else the execution stays RUNNING for ever).')
 RULE_TEXT = ("obligation = one rule instance (a store site, a call site, a CFG exit path of an analysed entry); non-trivial = "
              "distinct (rule, site) pairs; path rules are a fixpoint over a finite abstract domain, so every CFG path is covered")
 
